@@ -3,7 +3,9 @@
 package app
 
 import (
+	"encoding/json"
 	"fmt"
+	nodestate "github.com/yandex/mysync/internal/app/node_state"
 	"os"
 	"testing"
 	"time"
@@ -95,5 +97,110 @@ func TestVerifC19Sim(t *testing.T) {
 			c.NonTrivial()
 		}
 		c.Sample(map[string]any{"hosts": n, "registered": regs, "status": status, "request": kind, "promotions": fmt.Sprintf("%+v", cs.promotions)})
+	})
+}
+
+// TestVerifC19Steady: the optimisation sync of ordinary manager iterations (real syncer through
+// the real cluster/DCS adapters) never drops a replica from the registry while it still carries
+// the relaxed settings, whatever the replica's health record says.
+func TestVerifC19Steady(t *testing.T) {
+	stt := vs.NewStats(t, "C19")
+	stt.Rule = "cluster simulation, no switch request: warm semi-sync clusters of 3-4 HA hosts with 1-2 replicas registered in optimization_nodes (status new or enabled) and carrying the relaxed settings; 6-24 actions from {manager iteration round, the registered replica's mysync killed (its health record expires while its mysqld lives) / restarted, its health record deleted or replaced by a stale 'ping failed' one, lag switched on (apply delay + writes) / off, time jump 5s/70s}; oracle after every round: a reachable HA replica that carries innodb_flush_log_at_trx_commit=2 / sync_binlog=1000 in ground truth is still registered in optimization_nodes; non-trivial = a registered replica left the registry during the case"
+	stt.Assumptions = simAssumptions
+	stt.Check(t, vs.CheckOpts{Bubble: true}, func(c *vs.Case) {
+		n := c.Src.Int("ha_hosts", 3, 4)
+		ha := []string{"h1", "h2", "h3", "h4"}[:n]
+		o := simOpts{HA: ha, LogLevel: simLogLevel(), Cfg: map[string]string{"failover": "false", "inactivation_delay": "5s"}}
+		dir, _ := os.MkdirTemp("", "verifsim")
+		defer os.RemoveAll(dir)
+		s := newSim(c, c.RTOrT(t), dir, o)
+		defer s.close()
+		s.makeWarm("h1", append([]string{}, ha...), true, 1)
+		status := c.Src.Pick("registry_status", "new", "enabled")
+		nreg := c.Src.Int("registered_replicas", 1, 2)
+		var regs []string
+		for i := 0; i < nreg; i++ {
+			h := ha[1+i]
+			regs = append(regs, h)
+			body := `{"status":""}`
+			if status == "enabled" {
+				body = `{"status":"enabled"}`
+			}
+			s.zk.RawSet(simNS+"/optimization_nodes", []byte(`""`))
+			s.zk.RawSet(simNS+"/optimization_nodes/"+h, []byte(body))
+			s.w.Lock()
+			hh := s.w.Hosts[h]
+			hh.FlushLog, hh.SyncBin = mysql.OptimalInnodbFlushLogAtTrxCommitValue, mysql.OptimalSyncBinlogValue
+			s.w.Unlock()
+		}
+		s.traceFrom = s.w.StmtLen()
+		left := false
+		check := func(step string) {
+			s.w.Lock()
+			defer s.w.Unlock()
+			for _, h := range ha[1:] {
+				hh := s.w.Hosts[h]
+				relaxed := hh.FlushLog == mysql.OptimalInnodbFlushLogAtTrxCommitValue && hh.SyncBin == mysql.OptimalSyncBinlogValue
+				_, registered := s.zkGet("optimization_nodes/" + h)
+				if !registered {
+					for _, r := range regs {
+						if r == h {
+							left = true
+						}
+					}
+				}
+				if hh.Up && relaxed && !registered {
+					s.w.Unlock()
+					s.dumpTrace(s.traceFrom)
+					s.w.Lock()
+					c.Violation("c19-untracked-relaxed-replica", "after %s: %s carries the relaxed durability settings (innodb_flush_log_at_trx_commit=%d sync_binlog=%d) but is no longer in optimization_nodes", step, h, hh.FlushLog, hh.SyncBin)
+				}
+			}
+		}
+		steps := c.Src.Int("steps", 6, 24)
+		for i := 0; i < steps; i++ {
+			r := regs[c.Src.Int("replica", 0, len(regs)-1)]
+			act := c.Src.Pick("action", "round", "round", "round", "kill-its-mysync", "restart-its-mysync", "delete-its-health-record", "stale-bad-health-record", "lag-on", "lag-off", "advance")
+			switch act {
+			case "round":
+				s.round(true)
+				s.raise()
+				check(fmt.Sprintf("step %d (round)", i))
+			case "kill-its-mysync":
+				if p := s.procs[r]; p != nil {
+					s.killProc(p)
+				}
+			case "restart-its-mysync":
+				if s.procs[r] == nil {
+					s.startProc(r)
+				}
+			case "delete-its-health-record":
+				s.zk.RawDelete(simNS + "/" + pathHealthPrefix + "/" + r)
+			case "stale-bad-health-record":
+				b, _ := json.Marshal(&nodestate.NodeState{CheckAt: time.Now().Add(-time.Hour), CheckBy: "ghost", PingOk: false})
+				s.zk.RawSet(simNS+"/"+pathHealthPrefix+"/"+r, b)
+			case "lag-on":
+				s.w.Lock()
+				s.w.Hosts[r].ApplyDelay = 20 * time.Second
+				s.w.Unlock()
+				s.w.ClientWrite("h1", 200)
+			case "lag-off":
+				s.w.Lock()
+				s.w.Hosts[r].ApplyDelay = 0
+				s.w.Unlock()
+			case "advance":
+				s.advance([]time.Duration{5 * time.Second, 70 * time.Second}[c.Src.Int("advance", 0, 1)])
+			}
+		}
+		if u := s.unknownStatements(); len(u) > 0 {
+			c.Violation("harness-unknown-statement", "calibration: fake MySQL did not recognise %v", u)
+		}
+		if len(s.panics) > 0 {
+			c.Class("panic-in-daemon(C20)")
+		}
+		if left {
+			c.Class("registered-replica-left-the-registry")
+			c.NonTrivial()
+		}
 	})
 }
